@@ -40,6 +40,10 @@ for name in sorted(os.listdir(src)):
     r = {'property': pid, 'kind': 'neutral' if neutral else 'mutant'}
     sh('git -C %s checkout -- .' % REPO, 60)
     rc, o, _ = sh('git -C %s apply %s' % (REPO, os.path.join(d, 'patch.diff')), 60)
+    if rc != 0:
+        # the change was made against an earlier commit: merge it
+        sh('git -C %s checkout -- .' % REPO, 60)
+        rc, o, _ = sh('git -C %s apply -3 %s && git -C %s reset -q' % (REPO, os.path.join(d, 'patch.diff'), REPO), 60)
     r['applies'] = rc == 0
     if rc != 0:
         r['apply_output'] = o[-2000:]
